@@ -33,6 +33,7 @@ type process struct {
 	pid      *PID
 	restarts int32
 	mbuffer  []Envelope
+	stopped  bool
 }
 
 func newProcess(e *Engine, opts Opts) *process {
@@ -133,6 +134,11 @@ func (p *process) Start() {
 		p.Invoke(p.mbuffer)
 		p.mbuffer = nil
 	}
+	// A poison pill replayed from the buffer stopped this process,
+	// its inbox must stay closed.
+	if p.stopped {
+		return
+	}
 
 	p.inbox.Start(p)
 }
@@ -199,6 +205,7 @@ func (p *process) cleanup(cancel context.CancelFunc) {
 		}
 	}
 
+	p.stopped = true
 	p.inbox.Stop()
 	p.context.engine.Registry.Remove(p.pid)
 	p.context.message = Stopped{}
